@@ -62,7 +62,11 @@ fn handle(cmd: &Value) -> Value {
                 _ => json!({"skip": "not utf-8"}),
             }
         }
-        _ => ops::handle(op, cmd),
+        _ => {
+            let c = cmd.clone();
+            let o = op.to_owned();
+            catch(move || ops::handle(&o, &c))
+        }
     }
 }
 
